@@ -1837,6 +1837,29 @@ namespace
                           " resolution_len=" + vp::bits(space->getLongestValidSegmentLength()) +
                           " checked=" + std::to_string(si->getMotionValidator()->getCheckedMotionCount()) +
                           " validity_calls=" + std::to_string(svc->calls()) + " nsol=" + std::to_string(pdef->getSolutionCount());
+        if (auto *aps = dynamic_cast<og::AnytimePathShortening *>(pl.get()))
+        {
+            // bookkeeping oracle (model: AStep; theorem aps_best_cost_is_min_of_stored): bestCost_ is the cost of a stored path
+            // and no stored path is cheaper.  bestCost_ through a derived class (protected member), costs recomputed from the
+            // stored path objects with the objective APS used - the same computation on the same states, bit for bit.
+            struct Peek : og::AnytimePathShortening
+            {
+                using og::AnytimePathShortening::bestCost_;
+            };
+            double best = (aps->*(&Peek::bestCost_)).value();  // pointer to member: no cast of the object
+            auto opt = pdef->getOptimizationObjective();
+            double minStored = std::numeric_limits<double>::infinity();
+            bool member = false;
+            for (const auto &sol : pdef->getSolutions())
+                if (sol.path_ && opt)
+                {
+                    double c = sol.path_->cost(opt).value();
+                    minStored = std::min(minStored, c);
+                    member = member || c == best;
+                }
+            out += " aps_best=" + vp::bits(best) + " aps_min_stored=" + vp::bits(minStored) + " aps_best_is_stored=" +
+                   std::to_string((member || pdef->getSolutionCount() == 0) ? 1 : 0);
+        }
         if (auto *cf = dynamic_cast<og::CForest *>(pl.get()))
             out += " shared_paths=" + cf->getNumPathsShared() + " shared_states=" + cf->getNumStatesShared();  // no " path" in a key
         ob::PlannerSolution best(nullptr);
